@@ -78,3 +78,37 @@ package core
 //@   callsite InPlaceUnion@*: inner_is_row: forall i mathint :: 0 <= i && i < 8192 ==> (bit(*compare, i) <==> keyRow(f, key, i))
 //@   ensures all_when_no_keys: result == nil && len(keys) == 0 ==> (forall i mathint :: 0 <= i && i < 8192 ==> bit(*out, i))
 //@   ensures union: result == nil && len(keys) > 0 ==> (forall i mathint :: 0 <= i && i < 8192 ==> (bit(*out, i) <==> (exists kk int :: 0 <= kk && kk < len(keys) && keyRow(f, keys[kk], i))))
+
+// ---- extractors over the block blob: defined (no panic) for every well-formed blob, including
+// the empty block and blocks without receipts; a (block, index) lookup outside the block is
+// reported as not found, never answered.
+//@ func (extractTransaction).extract
+//@   props C07
+//@   arith int
+//@   requires b != nil && wfBlob(b)
+//@   ensures notfound: (subKey < 0 || subKey >= len(b.Indexes.Transactions)) ==> result1 == db.ErrKeyNotFound
+//@ func (extractReceipt).extract
+//@   props C07
+//@   arith int
+//@   requires b != nil && wfBlob(b)
+//@   ensures notfound: (subKey < 0 || subKey >= len(b.Indexes.Receipts)) ==> result1 == db.ErrKeyNotFound
+//@ func (extractTransactionAndReceipt).extract
+//@   props C07
+//@   arith int
+//@   requires b != nil && wfBlob(b)
+//@   ensures notfound: (subKey < 0 || subKey >= len(b.Indexes.Transactions) || subKey >= len(b.Indexes.Receipts)) ==> result1 != nil
+//@ func (extractAllTransactions).extract
+//@   props C07
+//@   arith int
+//@   requires b != nil && wfBlob(b)
+//@   ensures count: result1 == nil ==> len(result0) == len(b.Indexes.Transactions)
+//@ func (extractAllReceipts).extract
+//@   props C07
+//@   arith int
+//@   requires b != nil && wfBlob(b)
+//@   ensures count: result1 == nil ==> len(result0) == len(b.Indexes.Receipts)
+//@ func (extractAllTransactionsAndReceipts).extract
+//@   props C07
+//@   arith int
+//@   requires b != nil && wfBlob(b)
+//@   ensures count: result1 == nil ==> len(result0.Transactions) == len(b.Indexes.Transactions) && len(result0.Receipts) == len(b.Indexes.Receipts)
